@@ -38,6 +38,14 @@ type c16Scale struct {
 	// domain (5: built by NewLog / literal, 6: additionally used once for
 	// Map and Unmap), then its exported Min/Max fields are assigned the case's
 	// domain: a scale must follow its current Min/Max (no stale derived state).
+	// 5/6 call SetClamp AFTER the assignment; 7..11 (c16BuildStale) do not: the
+	// last thing that happens before the judged calls is the plain assignment
+	// of Min and/or Max. 7: other domain, SetClamp(c), assign both. 8: domain
+	// with another Min, SetClamp(c), Map+Unmap, assign Min only. 9: literal with
+	// another Max, SetClamp(c), assign Max only. 10: other domain, SetClamp(c),
+	// assign both to a second foreign domain, Map, assign both (twice in a
+	// row). 11: literal of another domain incl. Clamp (no SetClamp at all),
+	// Map+Unmap, assign both.
 	How int `json:"how"`
 	// Log: the Base field / the base given to NewLog (ticks only: Map and
 	// Unmap do not depend on it). 0 stands for 10.
@@ -55,7 +63,10 @@ type c16Case struct {
 	Kind string    `json:"kind"` // "scale", "qq", "newlog"
 	A    c16Scale  `json:"a"`
 	B    *c16Scale `json:"b,omitempty"` // qq: destination
-	Xs   []mon.F   `json:"xs,omitempty"`
+	// qq: 1 = Dest is the very same object as Src (B is ignored), 2 = Dest is
+	// a separately built scale with the same fields as Src
+	Alias int     `json:"alias,omitempty"`
+	Xs    []mon.F `json:"xs,omitempty"`
 	// scale: arguments of Unmap; qq: arguments of QQ.Unmap
 	Ys   []mon.F `json:"ys,omitempty"`
 	Lo   mon.F   `json:"lo"` // newlog
@@ -105,6 +116,9 @@ func c16Build(w *mon.W, sc c16Scale, bad func(kind, msg string)) (q scale.Quanti
 	name := c16Name(sc)
 	how := sc.How
 	base := c16Base(sc)
+	if how >= 7 {
+		return c16BuildStale(w, sc, bad)
+	}
 	if how >= 5 {
 		// history: other domain first, then the fields are re-assigned
 		w.Hit("domain-reassigned-after-construction")
@@ -194,6 +208,131 @@ func c16Build(w *mon.W, sc c16Scale, bad func(kind, msg string)) (q scale.Quanti
 			bad("panic", fmt.Sprintf("%s.SetClamp(%v) panicked: %v", c16Desc(sc), sc.Clamp, v))
 			return nil, false
 		}
+	}
+	return q, true
+}
+
+// c16BuildStale builds the library object through a history that ends with a
+// plain assignment of the exported Min and/or Max fields: a mutator
+// (NewLog, SetClamp) and/or Map and Unmap ran BEFORE, on other field values,
+// and nothing runs between the assignment and the judged calls. The object
+// must describe the fields as they are at the time of the call.
+func c16BuildStale(w *mon.W, sc c16Scale, bad func(kind, msg string)) (scale.Quantitative, bool) {
+	min, max := float64(sc.Min), float64(sc.Max)
+	name, base, how := c16Name(sc), c16Base(sc), sc.How
+	w.Hit("domain-reassigned-after-construction")
+	w.Hit(name + ":reassigned-then-used-directly")
+	w.HitIf(how == 8 || how == 9, "reassigned:one-end-only")
+	w.HitIf(how == 10, "reassigned:twice-in-a-row")
+	w.HitIf(how == 11, "reassigned:after-Map-without-any-SetClamp")
+	sign := 1.0
+	if sc.Log && min < 0 {
+		sign = -1
+	}
+	// foreign end points (of the case's sign for Log), different from the case's
+	altMin, altMax := sign*3, sign*7e5
+	if !sc.Log {
+		altMin, altMax = -3, 11
+	}
+	if altMin == min {
+		altMin = sign * 7
+	}
+	if altMax == max {
+		altMax = sign * 2e4
+	}
+	var lin *scale.Linear
+	var lg *scale.Log
+	var q scale.Quantitative
+	set := func(a, b float64, which int) { // which: 0 both, 1 Min only, 2 Max only
+		switch {
+		case lin != nil && which == 0:
+			lin.Min, lin.Max = a, b
+		case lin != nil && which == 1:
+			lin.Min = a
+		case lin != nil:
+			lin.Max = b
+		case which == 0:
+			lg.Min, lg.Max = a, b
+		case which == 1:
+			lg.Min = a
+		default:
+			lg.Max = b
+		}
+	}
+	// the domain before the last assignment
+	a0, b0 := altMin, altMax
+	switch how {
+	case 8:
+		b0 = max
+	case 9:
+		a0 = min
+	}
+	switch {
+	case !sc.Log:
+		lin = &scale.Linear{Min: a0, Max: b0}
+		if how == 11 {
+			lin.Clamp = sc.Clamp
+		}
+		q = lin
+	case how == 9 || how == 11:
+		lg = &scale.Log{Min: a0, Max: b0, Base: base}
+		if how == 11 {
+			lg.Clamp = sc.Clamp
+		}
+		q = lg
+	default:
+		var s scale.Log
+		var err error
+		w.Eval("NewLog")
+		if p, v := mon.Call(func() { s, err = scale.NewLog(sign*3, sign*7e5, base) }); p {
+			bad("panic", fmt.Sprintf("NewLog(%v,%v,%d) panicked: %v", sign*3, sign*7e5, base, v))
+			return nil, false
+		}
+		if err != nil {
+			bad("newlog-reject", fmt.Sprintf("NewLog(%v,%v,%d) rejected: %v", sign*3, sign*7e5, base, err))
+			return nil, false
+		}
+		lg = &s
+		q = lg
+		if how == 8 {
+			set(a0, b0, 0) // followed by SetClamp below
+		}
+	}
+	use := func() bool {
+		if p, v := mon.Call(func() { q.Map(sign * 5); q.Unmap(0.25) }); p {
+			bad("panic", fmt.Sprintf("Map/Unmap on the initial domain panicked: %v", v))
+			return false
+		}
+		return true
+	}
+	if how != 11 {
+		w.Eval(name + ".SetClamp")
+		if p, v := mon.Call(func() { q.SetClamp(sc.Clamp) }); p {
+			bad("panic", fmt.Sprintf("%s.SetClamp(%v) panicked: %v", c16Desc(sc), sc.Clamp, v))
+			return nil, false
+		}
+	}
+	switch how {
+	case 7:
+		set(min, max, 0)
+	case 8:
+		if !use() {
+			return nil, false
+		}
+		set(min, max, 1)
+	case 9:
+		set(min, max, 2)
+	case 10:
+		set(sign*0.5, sign*40, 0)
+		if !use() {
+			return nil, false
+		}
+		set(min, max, 0)
+	default:
+		if !use() {
+			return nil, false
+		}
+		set(min, max, 0)
 	}
 	return q, true
 }
@@ -291,6 +430,8 @@ func c16JudgeScale(w *mon.W, c c16Case) {
 	}
 
 	var pts []c16Pt
+	var gotMin, gotMax float64 // Linear, non-degenerate: Map at the end points
+	var haveMin, haveMax bool
 	for _, xf := range c.Xs {
 		x := float64(xf)
 		if !c16Finite(x) {
@@ -400,6 +541,31 @@ func c16JudgeScale(w *mon.W, c c16Case) {
 		if !mapOK {
 			viol("map", fmt.Sprintf("%s.Map(%v)=%.17g, the affine map gives %.17g (tol %.3g)", desc, x, got, ye, tol), one, nil)
 		}
+		if !sc.Log {
+			// End points of a non-degenerate Linear domain (Min != Max as
+			// floats): x-Min is an exact zero at Min in every form of the
+			// affine map (direct, reciprocal-multiply, lerp, even
+			// slope/intercept), and numerator and denominator are the same
+			// rounded non-zero difference at Max (1 exactly; within an ulp or
+			// two for a reciprocal-multiply form). However narrow the domain
+			// is - a few ulps of its bounds - the two end points are told apart.
+			if x == min {
+				w.Hit("Linear:endpoint-Min-exact")
+				w.HitIf(nearDeg, "Linear:near-degenerate-endpoint")
+				gotMin, haveMin = got, true
+				if got != 0 {
+					viol("linear-endpoint", fmt.Sprintf("%s.Map(Min)=%.17g, want 0 exactly (Min!=Max; x-Min is an exact zero)", desc, got), one, nil)
+				}
+			}
+			if x == max {
+				w.Hit("Linear:endpoint-Max")
+				w.HitIf(nearDeg, "Linear:near-degenerate-endpoint")
+				gotMax, haveMax = got, true
+				if !(math.Abs(got-1) <= 4*ref.Eps) {
+					viol("linear-endpoint", fmt.Sprintf("%s.Map(Max)=%.17g, want 1 to within 4 eps (Min!=Max; numerator and denominator are the same difference Max-Min)", desc, got), one, nil)
+				}
+			}
+		}
 		if sc.Clamp {
 			if !(got >= 0 && got <= 1) {
 				viol("clamp-confine", fmt.Sprintf("%s.Map(%v)=%v is outside [0,1]", desc, x, got), one, nil)
@@ -438,6 +604,10 @@ func c16JudgeScale(w *mon.W, c c16Case) {
 				viol("roundtrip-x", fmt.Sprintf("%s: Unmap(Map(%v))=%.17g (Map=%.17g), off by %.3g, tol %.3g", desc, x, back, got, math.Abs(back-x), tolRT), one, nil)
 			}
 		}
+	}
+
+	if haveMin && haveMax && gotMin == gotMax {
+		viol("linear-endpoint", fmt.Sprintf("%s: Map(Min)=Map(Max)=%.17g although Min!=Max", desc, gotMin), []float64{min, max}, nil)
 	}
 
 	for _, yf := range c.Ys {
@@ -530,10 +700,14 @@ func c16JudgeScale(w *mon.W, c c16Case) {
 }
 
 func c16JudgeQQ(w *mon.W, c c16Case) {
-	if c.B == nil {
+	if c.B == nil && c.Alias == 0 {
 		return
 	}
-	S, D := c.A, *c.B
+	S := c.A
+	D := S // Alias 1, 2: the destination has the fields of the source
+	if c.Alias == 0 {
+		D = *c.B
+	}
 	RS, err1 := ref.NewScaleRef(S.Log, float64(S.Min), float64(S.Max))
 	RD, err2 := ref.NewScaleRef(D.Log, float64(D.Min), float64(D.Max))
 	if err1 != nil || err2 != nil {
@@ -550,11 +724,25 @@ func c16JudgeQQ(w *mon.W, c c16Case) {
 		w.Violate(kind, msg, cc)
 	}
 	qs, ok1 := c16Build(w, S, func(kind, msg string) { viol(kind, msg, nil, nil) })
-	qd, ok2 := c16Build(w, D, func(kind, msg string) { viol(kind, msg, nil, nil) })
-	if !ok1 || !ok2 {
+	if !ok1 {
 		return
 	}
+	qd := qs // Alias 1: one object on both sides
+	if c.Alias != 1 {
+		var ok2 bool
+		if qd, ok2 = c16Build(w, D, func(kind, msg string) { viol(kind, msg, nil, nil) }); !ok2 {
+			return
+		}
+	}
 	qq := scale.QQ{Src: qs, Dest: qd}
+	// The composition Dest.Unmap(Src.Map(x)) does not depend on whether the
+	// two scales are one object, equal or different: the reference is the same.
+	w.HitIf(c.Alias == 1, "qq:dest-is-src-object")
+	w.HitIf(c.Alias == 2, "qq:dest-equal-copy")
+	w.HitIf(c.Alias != 0 && RS.Degenerate(), "qq:alias-degenerate")
+	if c.Alias != 0 {
+		desc += fmt.Sprintf("[alias=%d]", c.Alias)
+	}
 	w.Hit("qq:" + c16Name(S) + "->" + c16Name(D))
 	w.HitIf(S.Clamp, "qq:src-clamp")
 	w.HitIf(D.Clamp, "qq:dest-clamp")
@@ -567,11 +755,33 @@ func c16JudgeQQ(w *mon.W, c c16Case) {
 	w.HitIf(RS.Degenerate() && RD.Degenerate(), "qq:both-degenerate")
 
 	// one direction: from scale F (reference RF, clamp cf) to scale T.
-	dir := func(op, inv string, f, finv func(float64) float64, RF, RT *ref.ScaleRef, F, T c16Scale, x float64, mk func(float64) ([]float64, []float64)) {
-		if !c16Finite(x) || !RF.Valid(x) {
+	dir := func(op, inv string, f, finv func(float64) float64, RF, RT *ref.ScaleRef, F, T c16Scale, qt scale.Quantitative, x float64, mk func(float64) ([]float64, []float64)) {
+		if !c16Finite(x) {
 			return
 		}
 		xs, ys := mk(x)
+		if !RF.Valid(x) {
+			// Log on the from side, zero or wrong sign: its Map is NaN (a
+			// clamping Log may confine instead: not judged), and the
+			// composition hands that NaN to the Unmap of the other scale.
+			// What Unmap(NaN) is, is not stated: the library's own
+			// T.Unmap(NaN) is what the composition must return.
+			if F.Clamp {
+				return
+			}
+			w.Hit("qq:log-invalid-x")
+			w.HitIf(c.Alias != 0, "qq:alias-log-invalid-x")
+			var got, want float64
+			w.Eval(op)
+			if p, v := mon.Call(func() { got = f(x); want = qt.Unmap(math.NaN()) }); p {
+				viol("panic", fmt.Sprintf("%s.%s(%v) panicked: %v", desc, op[3:], x, v), xs, ys)
+				return
+			}
+			if !(got == want || (math.IsNaN(got) && math.IsNaN(want))) {
+				viol("qq-nan", fmt.Sprintf("%s.%s(%v)=%v: %v is zero or of the wrong sign for %s, whose Map is NaN there; the composition gives %s.Unmap(NaN)=%v", desc, op[3:], x, got, x, c16Desc(F), c16Desc(T), want), xs, ys)
+			}
+			return
+		}
 		var yb *big.Float
 		tolY := 0.0
 		if RF.Degenerate() {
@@ -594,6 +804,7 @@ func c16JudgeQQ(w *mon.W, c c16Case) {
 			return
 		}
 		w.HitIf(outside && F.Clamp, "qq:clamp-active")
+		w.HitIf(outside && F.Clamp && c.Alias != 0, "qq:alias-clamp-active")
 		w.HitIf(outside && !F.Clamp, "qq:beyond-domain")
 		yeb := yb
 		if F.Clamp {
@@ -635,12 +846,12 @@ func c16JudgeQQ(w *mon.W, c c16Case) {
 		}
 	}
 	for _, xf := range c.Xs {
-		dir("QQ.Map", "QQ.Unmap", qq.Map, qq.Unmap, RS, RD, S, D, float64(xf), func(x float64) ([]float64, []float64) { return []float64{x}, nil })
+		dir("QQ.Map", "QQ.Unmap", qq.Map, qq.Unmap, RS, RD, S, D, qd, float64(xf), func(x float64) ([]float64, []float64) { return []float64{x}, nil })
 	}
 	for _, yf := range c.Ys {
-		dir("QQ.Unmap", "QQ.Map", qq.Unmap, qq.Map, RD, RS, D, S, float64(yf), func(x float64) ([]float64, []float64) { return nil, []float64{x} })
+		dir("QQ.Unmap", "QQ.Map", qq.Unmap, qq.Map, RD, RS, D, S, qs, float64(yf), func(x float64) ([]float64, []float64) { return nil, []float64{x} })
 	}
-	h := mon.NewHasher().S("qq").S(c16Desc(S)).S(c16Desc(D))
+	h := mon.NewHasher().S("qq").S(c16Desc(S)).S(c16Desc(D)).I(c.Alias).I(S.How).I(D.How)
 	w.Distinct(h.Fs(mon.Un(c.Xs)).Fs(mon.Un(c.Ys)).Sum())
 	if w.WantSample() && len(c.Xs) > 0 {
 		x := float64(c.Xs[len(c.Xs)/2])
@@ -885,14 +1096,19 @@ func c16Points(rng *mon.Rand, isLog bool, min, max float64, reach float64) []flo
 }
 
 func c16Run(r *mon.Run) {
-	r.Rule("Linear and Log domains with |Min|,|Max| in [1e-12,1e12] (generic, narrow, near-degenerate, degenerate, corners, symmetric/integers/decades, huge ratio; both orders; both signs for Log), Clamp on/off set by field, SetClamp or NewLog, Log bases 2, 3, 5, 10, 16; x = Min, Max, their neighbours, inside, up to 100 widths outside (for Log: widths in ln|x|, up to MaxFloat64 and down to the subnormals), zero and wrong-sign x for Log; y in [-5,5]; QQ over the 4 pairings x 4 clamp settings, with degenerate source and/or destination in 3 of 16 blocks; NewLog over a 12x12x11 grid of end points and bases plus random ones, Map/Unmap of every accepted scale spot-checked against the reference. Non-trivial: hits a class (reversed, negative, (near-)degenerate, clamp active, beyond domain, QQ pairing, NewLog branch); distinct by hash of (scale(s), points).")
+	r.Rule("Linear and Log domains with |Min|,|Max| in [1e-12,1e12] (generic, narrow, near-degenerate, degenerate, corners, symmetric/integers/decades, huge ratio; both orders; both signs for Log), Clamp on/off set by field, SetClamp or NewLog, Log bases 2, 3, 5, 10, 16; x = Min, Max, their neighbours, inside, up to 100 widths outside (for Log: widths in ln|x|, up to MaxFloat64 and down to the subnormals), zero and wrong-sign x for Log; y in [-5,5]; histories of the object: built directly, SetClamp once/twice, via NewLog, another domain first and Min/Max assigned afterwards followed by SetClamp, or assigned LAST (after NewLog/SetClamp/Map ran on other field values: both ends, one end only, twice in a row, no SetClamp at all) with the judged calls directly after the assignment; QQ over the 4 pairings x 4 clamp settings, with degenerate source and/or destination in 3 of 16 blocks, Dest the same object as Src or an equal-field copy (clamp on/off, degenerate or not) in 4 of 16 blocks, zero/wrong-sign x through a Log source; NewLog over a 12x12x11 grid of end points and bases plus random ones, Map/Unmap of every accepted scale spot-checked against the reference. Non-trivial: hits a class (reversed, negative, (near-)degenerate, clamp active, beyond domain, QQ pairing, NewLog branch); distinct by hash of (scale(s), points).")
 	r.Assume("reference: affine map in x / ln|x| in 384-bit arithmetic (own exp/log), self-tested at start-up",
-		"tolerances (policy b): Linear Unmap 8eps(|x|+(1+|y|)max(|Min|,|Max|)), Log Unmap relative 8eps(1+|y|)(1+|ln x|+|ln Min|+|ln Max|); Map: the same carried through the slope + 4eps|y|; round trips: sum of the two",
+		"tolerances (policy b): Linear Unmap 8eps(|x|+(1+|y|)max(|Min|,|Max|)), Log Unmap relative 8eps(1+|y|)(1+|ln x|+|ln Min|+|ln Max|); Log Map: the same carried through the slope + 4eps|y|; Linear Map: 8eps|y|+4eps|1-y| (x-Min and Max-Min are single roundings of the inputs: direct, reciprocal-multiply and lerp forms all reach it; a slope/intercept form x*k-Min*k does not); round trips: sum of the two",
+		"non-degenerate Linear domain (Min!=Max as floats, however narrow): Map(Min)=0 exactly, |Map(Max)-1|<=4eps, Map(Min)!=Map(Max)",
+		"a scale describes its exported Min/Max as they are at the time of the call, whatever ran on the object before; QQ's reference composition Dest.Unmap(Src.Map(x)) is the same whether Dest is Src itself, an equal copy or another scale; for zero/wrong-sign x of a non-clamping Log source QQ must return what the destination's own Unmap returns for NaN",
 		"Log domains with ln|Max|-ln|Min| <= 8eps(1+|ln Min|+|ln Max|) are unresolvable in double precision logarithms: Map values there are counted ambiguous and not judged, except that when the logarithms of |Min| and |Max| are at least 3 ulps apart (ln|Max|-ln|Min| >= 3eps max|ln|, the same in every base), Map(Min)=0 and Map(Max)=1 exactly, [0,1] confinement under Clamp and weak monotonicity are still required",
 		"QQ with a degenerate scale: a degenerate source maps every valid input to 0.5, so QQ.Map(x) is Dest.Unmap(0.5); a degenerate destination unmaps everything to its Min; no inverse law there",
 		"Unmap outside [0,1] of a clamping scale is undefined (scale.Quantitative) and not judged; a clamping Log may return NaN or a confined value for zero/wrong-sign x",
 		"NewLog is exercised with finite arguments only")
-	r.Gate("domain-reassigned-after-construction", "Linear:reversed", "Log:reversed", "Log:negative", "Log:negative-reversed",
+	r.Gate("Linear:reassigned-then-used-directly", "Log:reassigned-then-used-directly", "reassigned:one-end-only", "reassigned:twice-in-a-row", "reassigned:after-Map-without-any-SetClamp",
+		"Linear:endpoint-Min-exact", "Linear:endpoint-Max", "Linear:near-degenerate-endpoint",
+		"qq:dest-is-src-object", "qq:dest-equal-copy", "qq:alias-clamp-active", "qq:alias-degenerate", "qq:log-invalid-x", "qq:alias-log-invalid-x",
+		"domain-reassigned-after-construction", "Linear:reversed", "Log:reversed", "Log:negative", "Log:negative-reversed",
 		"Linear:degenerate", "Log:degenerate", "Linear:near-degenerate", "Log:near-degenerate",
 		"Linear:clamp-low", "Linear:clamp-high", "Log:clamp-low", "Log:clamp-high",
 		"Linear:beyond-domain", "Log:beyond-domain", "Linear:unmap-beyond-[0,1]", "Log:unmap-beyond-[0,1]",
@@ -917,7 +1133,7 @@ func c16Run(r *mon.Run) {
 	r.Parallel("linear", r.Pick(6000, 60000), func(w *mon.W, i int) {
 		rng := w.Rng
 		min, max := c16Domain(rng, i, false)
-		sc := c16Scale{Min: mon.F(min), Max: mon.F(max), Clamp: (i/8)%2 == 1, How: rng.PickI(0, 1, 2, 5, 6)}
+		sc := c16Scale{Min: mon.F(min), Max: mon.F(max), Clamp: (i/8)%2 == 1, How: rng.PickI(0, 1, 2, 5, 6, 7, 8, 9, 10, 11)}
 		xs := c16Points(rng, false, min, max, 100)
 		xs = append(xs, 0, rng.Sign()*c16Mag(rng))
 		c16Judge(w, c16Case{Kind: "scale", A: sc, Xs: mon.Fs(xs), Ys: mon.Fs(ys(rng))})
@@ -926,7 +1142,7 @@ func c16Run(r *mon.Run) {
 	r.Parallel("log", r.Pick(6000, 60000), func(w *mon.W, i int) {
 		rng := w.Rng
 		min, max := c16Domain(rng, i, true)
-		sc := c16Scale{Log: true, Min: mon.F(min), Max: mon.F(max), Clamp: (i/8)%2 == 1, How: rng.Intn(7), Base: c16PickBase(rng)}
+		sc := c16Scale{Log: true, Min: mon.F(min), Max: mon.F(max), Clamp: (i/8)%2 == 1, How: rng.Intn(12), Base: c16PickBase(rng)}
 		xs := c16Points(rng, true, min, max, 100)
 		s := math.Copysign(1, min)
 		xs = append(xs, s*c16ClipX(rng.LogUniform(1e-14, 1e14)), s*1e-14, s*1e14,
@@ -951,25 +1167,42 @@ func c16Run(r *mon.Run) {
 			if deg {
 				min, max = c16Domain(rng, 4, isLog)
 			}
-			return c16Scale{Log: isLog, Min: mon.F(min), Max: mon.F(max), Clamp: clamp, How: rng.Intn(7), Base: c16PickBase(rng)}
+			return c16Scale{Log: isLog, Min: mon.F(min), Max: mon.F(max), Clamp: clamp, How: rng.Intn(12), Base: c16PickBase(rng)}
 		}
-		// 3 of 16 blocks of 16 cases: degenerate source, destination, both
+		// 3 of 16 blocks of 16 cases: degenerate source, destination, both;
+		// 4 more: the destination is the source object itself (3, 5) or a
+		// separately built scale with the same fields (4, 6), non-degenerate
+		// (3, 4) and degenerate (5, 6); Linear/Log and Clamp on/off vary
+		// inside every block.
 		blk := (i / 16) % 16
-		S := mk(i&1 == 1, i&4 == 4, blk == 0 || blk == 2)
-		D := mk(i&2 == 2, i&8 == 8, blk == 1 || blk == 2)
+		alias := 0
+		switch blk {
+		case 3, 5:
+			alias = 1
+		case 4, 6:
+			alias = 2
+		}
+		S := mk(i&1 == 1, i&4 == 4, blk == 0 || blk == 2 || blk == 5 || blk == 6)
+		D := S
+		if alias == 0 {
+			D = mk(i&2 == 2, i&8 == 8, blk == 1 || blk == 2)
+		}
 		pts := func(sc c16Scale) []float64 {
 			min, max := float64(sc.Min), float64(sc.Max)
 			xs := c16Points(rng, sc.Log, min, max, 4)
+			s := math.Copysign(1, min)
 			if min == max {
 				// every valid input of a degenerate scale maps to 0.5
-				s := math.Copysign(1, min)
 				xs = append(xs, s*c16Mag(rng), s*c16Mag(rng), min*rng.Uniform(0.5, 2), s*rng.LogUniform(1e-300, 1e300), -s*c16Mag(rng), 0)
+			} else if sc.Log {
+				// zero and wrong sign: NaN goes through the composition
+				xs = append(xs, 0, -rng.Pick(min, max, s*c16Mag(rng)))
 			}
 			return xs
 		}
 		xs := pts(S)
 		ps := pts(D)
-		c16Judge(w, c16Case{Kind: "qq", A: S, B: &D, Xs: mon.Fs(xs), Ys: mon.Fs(ps)})
+		c16Judge(w, c16Case{Kind: "qq", A: S, B: &D, Alias: alias, Xs: mon.Fs(xs), Ys: mon.Fs(ps)})
 	})
 
 	// NewLog: enumerated grid
